@@ -1,5 +1,5 @@
 (* C09 — postponed resolution reaches the right fixpoint and terminates. *)
-From TxV Require Import Core.Base Gen.SrcResolve Model.Resolve Proofs.ResolveProofs.
+From TxV Require Import Core.Base Gen.SrcResolve Model.Resolve Proofs.ResolveOrderProofs Proofs.ResolveRetryProofs Proofs.ResolveProofs.
 
 (* [load] is the resolver model instantiated with the facts read from textx/model.py on every
    run (Gen/SrcResolve.v, tools/translate/resolve_tr.py): re-queueing of Postponed references,
@@ -11,6 +11,13 @@ From TxV Require Import Core.Base Gen.SrcResolve Model.Resolve Proofs.ResolvePro
 Theorem C09_terminates : forall (ans : provider) models, load ans models <> OutOfFuel.
 Proof. exact load_terminates. Qed.
 Print Assumptions C09_terminates.
+
+(* every resolution - of a list element or of a scalar - is counted as progress, and the pending
+   list shrinks by exactly that count *)
+Theorem C09_progress_counted : forall (ans : provider) pend st st' np d c,
+  step ans pend st = Some (st', np, d, c) -> np = d /\ sub np pend /\ length np + c = length pend.
+Proof. exact retry_in_order. Qed.
+Print Assumptions C09_progress_counted.
 
 (* With a provider given by a dependency table (a reference resolves once everything it
    waits for has resolved; "never" references are always postponed):
